@@ -23,6 +23,9 @@ SECURE_PID = 2
 PROBE_PROTOCOL = 0x71
 
 
+# bound on event-loop turns per simulated session (a login session takes a few thousand; see sim.VLoop.max_turns)
+MAX_TURNS = 2_000_000
+
 def exc_name(e):
     if isinstance(e, common.RMCError): return "rmc %d" % e.code()
     if isinstance(e, struct.error): return "exc StructError"
@@ -398,7 +401,7 @@ def run_case(c):
         undo = [install_response_recorder(obs)]
         if variant is not None: undo.append(install_rogue(obs, variant, sim.rng))
         try:
-            sim.run(main())
+            (setattr(sim.loop, "max_turns", MAX_TURNS), sim.run(main()))[1]
         except BaseException as e:
             if isinstance(e, (KeyboardInterrupt, SystemExit)): raise
             obs["error"] = exc_name(e)
@@ -649,7 +652,7 @@ def run_session(sess):
         kerberos.ClientTicket.decrypt = classmethod(decrypt_rec)
         prudp.PRUDPServerStream.process_login_request = plr_rec
         try:
-            sim.run(main())
+            (setattr(sim.loop, "max_turns", MAX_TURNS), sim.run(main()))[1]
         except BaseException as e:
             if isinstance(e, (KeyboardInterrupt, SystemExit)): raise
             out["error"] = exc_name(e)
